@@ -85,6 +85,17 @@ class PreprocessingTransformation(Transformation, ABC):
         self.processing_item_applied(rule)
 
 
+def _inherit_applied_processing_items(
+    source: SigmaDetectionItem, target: SigmaDetection | SigmaDetectionItem
+) -> None:
+    """Items that replace a detection item keep the processing history of the replaced item."""
+    if isinstance(target, SigmaDetection):
+        for item in target.detection_items:
+            _inherit_applied_processing_items(source, item)
+    elif target is not source:
+        target.applied_processing_items.update(source.applied_processing_items)
+
+
 @dataclass
 class DetectionItemTransformation(PreprocessingTransformation):
     """
@@ -122,6 +133,7 @@ class DetectionItemTransformation(PreprocessingTransformation):
                 ) and (r := self.apply_detection_item(detection_item)) is not None:
                     if isinstance(r, SigmaDetectionItem):
                         r.disable_conversion_to_plain()
+                    _inherit_applied_processing_items(detection_item, r)
                     detection.detection_items[i] = r
                     self.processing_item_applied(r)
 
@@ -203,6 +215,7 @@ class FieldMappingTransformationBase(DetectionItemTransformation):
                         # with the current values. Disable conversion to prevent to_plain()
                         # from producing stale output.
                         r.disable_conversion_to_plain()
+                    _inherit_applied_processing_items(detection_item, r)
                     detection.detection_items[i] = r
                     self.processing_item_applied(r)
 
